@@ -308,3 +308,264 @@ Proof.
       destruct (h_version (hdr_at d (off2 d))); [congruence| |];
         (split; [intros H; injection H as <- <-; right; auto|intros [(Hx & _) | (_ & -> & ->)]; [discriminate|reflexivity]]).
 Qed.
+
+(** ** the selected block satisfies the hypotheses of the block-level theorems *)
+Lemma state_at_hyps d off (first : bool) : data_ok d -> 0 <= off <= zlen d -> header_ok_at d off = true ->
+  let ts := if first then 4 else 8 in
+  off + block_len (hdr_at d off) ts <= zlen d -> ver_ts ts (h_version (hdr_at d off)) ->
+  blk_hyps (state_at d off ts) ts.
+Proof.
+  intros Hd H0 Hok ts Hfit Hver. assert (Hts : ts = 4 \/ ts = 8) by (subst ts; destruct first; auto).
+  destruct (hdr_at_ok d off Hd ltac:(lia) Hok) as [Hh Hut].
+  constructor.
+  - assert (Hc : cur_ok (zlen d) (cur_at d off)).
+    { destruct Hd as [Hlen Hbytes]. unfold cur_ok, cur_at. cbn [remaining read_count]. rewrite zlen_skipn by lia.
+      repeat split; try lia; [unfold i64_max, u64_max in *; lia|apply Forall_skipn; exact Hbytes]. }
+    destruct (state_new_spec (zlen d) (cur_at d off) first Hc) as (r & Hr & Hq).
+    pose proof (proj2 (state_new_at d off first (state_at d off ts) _ Hd H0)
+                  (conj Hok (conj Hfit (conj eq_refl eq_refl)))) as Hs.
+    rewrite Hs in Hr. injection Hr as <-. apply Hq.
+  - exact Hver.
+  - cbn [state_at st_ut_locals st_header].
+    destruct Hh as (G1 & G2 & G3 & G4 & G5 & G6). unfold u32_max in *.
+    rewrite zlen_sub; [lia| |lia|].
+    + unfold o_ut, o_std, o_leaps, o_names, o_ltts, o_types, o_times. destruct Hts as [-> | ->]; lia.
+    + unfold block_len in Hfit. unfold o_ut, o_std, o_leaps, o_names, o_ltts, o_types, o_times.
+      destruct Hts as [-> | ->]; lia.
+Qed.
+Lemma ext_of_version d off : (match h_version (hdr_at d off) with V3 => true | _ => false end) = (byte_at d (off + 4) =? 51).
+Proof.
+  unfold hdr_at. cbn [h_version]. unfold ver_of_byte.
+  destruct (byte_at d (off + 4) =? 0) eqn:E0; [lia|].
+  destruct (byte_at d (off + 4) =? 50) eqn:E50; [lia|].
+  destruct (byte_at d (off + 4) =? 51); reflexivity.
+Qed.
+
+(** ** the footer stage *)
+Lemma z_match10 (x : Z) : (match x with 10 => true | _ => false end) = (x =? 10).
+Proof. destruct x as [|p|p]; try reflexivity; repeat (destruct p as [p|p|]; try reflexivity). Qed.
+Lemma z_match58 (x : Z) : (match x with 58 => true | _ => false end) = (x =? 58).
+Proof. destruct x as [|p|p]; try reflexivity; repeat (destruct p as [p|p|]; try reflexivity). Qed.
+Lemma footer_step_some v f rule :
+  footer_step v (Some f) = Val (Ok rule) <->
+  footer_text_ok f = true /\
+  match trim_ascii_ws f with
+  | [] => ok None
+  | s => let+ r := from_tz_string s (match v with V3 => true | _ => false end) in ok (Some r)
+  end = Val (Ok rule).
+Proof.
+  unfold footer_step, footer_text_ok.
+  destruct (utf8_valid f); cbn [negb andb]; [|split; [discriminate|intros [H _]; discriminate]].
+  assert (E1 : (match f with 10 :: _ => true | _ => false end) = (hd 0 f =? 10)).
+  { destruct f as [|x r]; [reflexivity|]. cbn [hd]. apply z_match10. }
+  assert (E2 : (match last_byte f with Some 10 => true | _ => false end) = (hd 0 (rev f) =? 10)).
+  { unfold last_byte. destruct (rev f) as [|x r]; [reflexivity|]. cbn [hd]. apply z_match10. }
+  rewrite E1, E2.
+  destruct ((hd 0 f =? 10) && (hd 0 (rev f) =? 10)); cbn [negb andb]; [|split; [discriminate|intros [H _]; discriminate]].
+  cbv zeta.
+  assert (E3 : (match trim_ascii_ws f with 58 :: _ => true | _ => false end) = (hd 0 (trim_ascii_ws f) =? 58)).
+  { destruct (trim_ascii_ws f) as [|x r]; [reflexivity|]. cbn [hd]. apply z_match58. }
+  rewrite E3.
+  destruct (hd 0 (trim_ascii_ws f) =? 58); cbn [negb orb andb]; [split; [discriminate|intros [H _]; discriminate]|].
+  destruct (existsb (fun x => x =? 0) (trim_ascii_ws f)); cbn [negb]; [split; [discriminate|intros [H _]; discriminate]|].
+  destruct (trim_ascii_ws f); (split; [intros H; split; [reflexivity|exact H]|intros [_ H]; exact H]).
+Qed.
+
+(** ** whole files *)
+Lemma rbind_ok_iff {A T} (x : R (res A)) (f : A -> R (res T)) (t : T) :
+  rbind x f = Val (Ok t) <-> exists a, x = Val (Ok a) /\ f a = Val (Ok t).
+Proof.
+  split; [apply rbind_ok_inv|]. intros (a & -> & H). exact H.
+Qed.
+Lemma v1_layout_version d : v1_layout_ok d = true ->
+  header_ok_at d 0 = true /\ byte_at d 4 = 0 /\ zlen d = block_len (hdr_at d 0) 4 /\ ver_ts 4 (h_version (hdr_at d 0)).
+Proof.
+  unfold v1_layout_ok. intros H. apply andb_prop in H. destruct H as [H H2]. apply andb_prop in H. destruct H as [H H1].
+  split; [exact H|]. split; [lia|]. split; [lia|]. left. split; [reflexivity|].
+  apply (hdr_version_v1 d 0). right. change (0 + 4) with 4. lia.
+Qed.
+Lemma v23_layout_version d : v23_layout_ok d = true ->
+  header_ok_at d 0 = true /\ byte_at d 4 <> 0 /\ header_ok_at d (off2 d) = true /\
+  off2 d + block_len (hdr_at d (off2 d)) 8 <= zlen d /\ ver_ts 8 (h_version (hdr_at d (off2 d))).
+Proof.
+  unfold v23_layout_ok. intros H.
+  apply andb_prop in H. destruct H as [H Hf]. apply andb_prop in H. destruct H as [H He].
+  apply andb_prop in H. destruct H as [H Hc]. apply andb_prop in H. destruct H as [Ha Hb].
+  split; [exact Ha|]. split; [lia|]. split; [exact Hc|]. split; [lia|]. right. split; [reflexivity|].
+  intros Hx. apply (hdr_version_v1 d (off2 d)) in Hx. destruct Hx as [Hx | Hx].
+  - exact (header_ok_version d (off2 d) Hc Hx).
+  - lia.
+Qed.
+Lemma off2_range d : data_ok d -> header_ok_at d 0 = true -> 44 <= off2 d.
+Proof.
+  intros Hd Hok. destruct (hdr_at_ok d 0 Hd ltac:(lia) Hok) as [(? & ? & ? & ? & ? & ?) _]. unfold off2, block_len. lia.
+Qed.
+
+Definition selected (d : bytes) (st : state) : Prop :=
+  (v1_layout_ok d = true /\ st = state_at d 0 4) \/ (v23_layout_ok d = true /\ st = state_at d (off2 d) 8).
+Lemma selected_hyps d st : data_ok d -> selected d st ->
+  exists ts footer, select d = Val (Ok (st, footer)) /\ blk_hyps st ts.
+Proof.
+  intros Hd [[Hl ->] | [Hl ->]].
+  - destruct (v1_layout_version d Hl) as (Hok & Hb & Hlen & Hver). exists 4, None. split.
+    + apply select_iff; [exact Hd|]. left. auto.
+    + pose proof (zlen_nonneg d). apply (state_at_hyps d 0 true Hd ltac:(lia) Hok); [cbv zeta; lia|exact Hver].
+  - destruct (v23_layout_version d Hl) as (Hok & Hb & Hok2 & Hfit & Hver). exists 8, (Some (footer_of d)). split.
+    + apply select_iff; [exact Hd|]. right. auto.
+    + pose proof (off2_range d Hd Hok). pose proof (header_ok_len d (off2 d) Hok2).
+      apply (state_at_hyps d (off2 d) false Hd ltac:(lia) Hok2); [exact Hfit|exact Hver].
+Qed.
+
+(* version 1: complete, no function of the reader inside the predicate *)
+Theorem v1_accepts_iff d z : data_ok d ->
+  (parse d = Val (Ok z) /\ byte_at d 4 = 0) <-> (tzif_v1_accepts d = true /\ z = tzif_v1_zone d).
+Proof.
+  intros Hd. rewrite parse_select. rewrite rbind_ok_iff.
+  change (tzif_v1_accepts d) with (v1_layout_ok d && block_ok (state_at d 0 4)). split.
+  - intros [([st footer] & Hs & Hf) Hb0]. apply (select_iff d st footer Hd) in Hs.
+    destruct Hs as [(Hl & -> & ->) | (Hl & _)].
+    + destruct (selected_hyps d (state_at d 0 4) Hd (or_introl (conj Hl eq_refl))) as (ts & f' & _ & Hh).
+      apply (finish_accepts _ ts None z Hh) in Hf. destruct Hf as (Hbo & rule & Hr & _ & ->).
+      cbn [footer_step] in Hr. injection Hr as <-. rewrite Hl, Hbo. auto.
+    + destruct (v23_layout_version d Hl) as (_ & Hx & _). contradiction.
+  - intros [Ha ->]. apply andb_prop in Ha. destruct Ha as [Hl Hbo].
+    destruct (v1_layout_version d Hl) as (_ & Hb0 & _). split; [|exact Hb0].
+    destruct (selected_hyps d (state_at d 0 4) Hd (or_introl (conj Hl eq_refl))) as (ts & f' & _ & Hh).
+    exists (state_at d 0 4, None). split; [apply select_iff; [exact Hd|left; auto]|].
+    apply (finish_accepts _ ts None _ Hh). split; [exact Hbo|]. exists None. repeat split.
+Qed.
+
+(* version 2 / 3.  PARTIAL: the TZ string of a non-blank footer is judged by the reader's own
+   [from_tz_string] and its agreement with the last transition by [footer_consistent] *)
+Theorem v23_accepts_iff d z : data_ok d ->
+  (parse d = Val (Ok z) /\ byte_at d 4 <> 0) <-> (tzif_v23_accepts d = true /\ z = tzif_v23_zone d).
+Proof.
+  intros Hd. rewrite parse_select. rewrite rbind_ok_iff. unfold tzif_v23_accepts, tzif_v23_zone.
+  assert (Hrr : forall rule, footer_step (h_version (hdr_at d (off2 d))) (Some (footer_of d)) = Val (Ok rule) <->
+                             footer_text_ok (footer_of d) = true /\ footer_rule_res d = Val (Ok rule)).
+  { intros rule. rewrite footer_step_some. rewrite ext_of_version. unfold footer_rule_res, footer_ext_of.
+    destruct (trim_ascii_ws (footer_of d)); reflexivity. }
+  split.
+  - intros [([st footer] & Hs & Hf) Hb0]. apply (select_iff d st footer Hd) in Hs.
+    destruct Hs as [(Hl & _) | (Hl & -> & ->)].
+    + destruct (v1_layout_version d Hl) as (_ & Hx & _). contradiction.
+    + destruct (selected_hyps d _ Hd (or_intror (conj Hl eq_refl))) as (ts & f' & _ & Hh).
+      apply (finish_accepts _ ts _ z Hh) in Hf. destruct Hf as (Hbo & rule & Hr & Hc & ->).
+      cbn [st_header state_at] in Hr. apply Hrr in Hr. destruct Hr as [Ht Hr].
+      rewrite Hl, Hbo, Ht, Hr, Hc. auto.
+  - intros [Ha ->].
+    apply andb_prop in Ha. destruct Ha as [Ha Hc]. apply andb_prop in Ha. destruct Ha as [Ha Ht].
+    apply andb_prop in Ha. destruct Ha as [Hl Hbo].
+    destruct (v23_layout_version d Hl) as (_ & Hb0 & _). split; [|exact Hb0].
+    destruct (selected_hyps d _ Hd (or_intror (conj Hl eq_refl))) as (ts & f' & _ & Hh).
+    exists (state_at d (off2 d) 8, Some (footer_of d)). split; [apply select_iff; [exact Hd|right; auto]|].
+    apply (finish_accepts _ ts _ _ Hh). split; [exact Hbo|].
+    destruct (footer_rule_res d) as [[rule|e]| |] eqn:Er; try discriminate Hc.
+    exists rule. split; [|split; [exact Hc|reflexivity]].
+    cbn [st_header state_at]. apply Hrr. auto.
+Qed.
+
+Theorem accepts_iff d z : data_ok d ->
+  parse d = Val (Ok z) <-> tzif_accepts d = true /\ z = tzif_zone d.
+Proof.
+  intros Hd. unfold tzif_accepts, tzif_zone. pose proof (v1_accepts_iff d z Hd) as H1. pose proof (v23_accepts_iff d z Hd) as H2.
+  destruct (byte_at d 4 =? 0) eqn:E0.
+  - assert (Hb : byte_at d 4 = 0) by lia.
+    assert (Hn : tzif_v23_accepts d = false).
+    { destruct (tzif_v23_accepts d) eqn:E; [|reflexivity]. unfold tzif_v23_accepts in E.
+      apply andb_prop in E. destruct E as [E _]. apply andb_prop in E. destruct E as [E _]. apply andb_prop in E. destruct E as [E _].
+      destruct (v23_layout_version d E) as (_ & Hx & _). contradiction. }
+    rewrite Hn, orb_false_r. split; [intros H; apply H1; auto|intros H; apply H1 in H; apply H].
+  - assert (Hb : byte_at d 4 <> 0) by lia.
+    assert (Hn : tzif_v1_accepts d = false).
+    { destruct (tzif_v1_accepts d) eqn:E; [|reflexivity].
+      change (tzif_v1_accepts d) with (v1_layout_ok d && block_ok (state_at d 0 4)) in E.
+      apply andb_prop in E. destruct E as [E _]. destruct (v1_layout_version d E) as (_ & Hx & _). contradiction. }
+    rewrite Hn. cbn [orb]. split; [intros H; apply H2; auto|intros H; apply H2 in H; apply H].
+Qed.
+
+(** ** the two rejections, for every file: the layout is fine (so that the type records are
+    reached) and some record of the decoded block has offset i32::MIN / an unterminated designation *)
+Theorem rejects_min_offset d st r : data_ok d -> selected d st ->
+  In r (blk_ltt_recs (st_local_time_types st)) -> rec_utoff r = -2147483648 ->
+  tzif_accepts d = false /\ exists e, parse d = Val (Err e) /\ (e = EInvalidTzFile \/ e = ELocalTimeType).
+Proof.
+  intros Hd Hsel Hin Hr. destruct (selected_hyps d st Hd Hsel) as (ts & footer & Hs & Hh).
+  destruct (finish_rejects_min_offset st ts footer r Hh Hin Hr) as (e & He & Hee).
+  assert (Hp : parse d = Val (Err e)) by (rewrite parse_select, Hs; exact He).
+  split; [|exists e; auto].
+  destruct (tzif_accepts d) eqn:E; [|reflexivity].
+  pose proof (proj2 (accepts_iff d (tzif_zone d) Hd) (conj E eq_refl)) as Hx. rewrite Hp in Hx. discriminate.
+Qed.
+Theorem rejects_unterminated d st r : data_ok d -> selected d st ->
+  In r (blk_ltt_recs (st_local_time_types st)) ->
+  has_nul (skipn (Z.to_nat (rec_idx r)) (st_names st)) = false ->
+  tzif_accepts d = false /\ exists e, parse d = Val (Err e) /\ (e = EInvalidTzFile \/ e = ELocalTimeType).
+Proof.
+  intros Hd Hsel Hin Hr. destruct (selected_hyps d st Hd Hsel) as (ts & footer & Hs & Hh).
+  destruct (finish_rejects_unterminated st ts footer r Hh Hin Hr) as (e & He & Hee).
+  assert (Hp : parse d = Val (Err e)) by (rewrite parse_select, Hs; exact He).
+  split; [|exists e; auto].
+  destruct (tzif_accepts d) eqn:E; [|reflexivity].
+  pose proof (proj2 (accepts_iff d (tzif_zone d) Hd) (conj E eq_refl)) as Hx. rewrite Hp in Hx. discriminate.
+Qed.
+(* the exact error: the first refused record of the decoded block decides *)
+Theorem first_bad_record d st pre r post e : data_ok d -> selected d st ->
+  blk_ltt_recs (st_local_time_types st) = pre ++ r :: post ->
+  forallb (ltt_rec_ok (st_names st)) pre = true -> ltt_res (st_names st) r = Err e ->
+  parse d = Val (Err e).
+Proof.
+  intros Hd Hsel Hsplit Hpre Hr. destruct (selected_hyps d st Hd Hsel) as (ts & footer & Hs & Hh).
+  rewrite parse_select, Hs. exact (finish_first_bad_record st ts footer pre r post e Hh Hsplit Hpre Hr).
+Qed.
+
+(** ** Witnesses on concrete files (headers by the specification writer Spec/TzWriter.v) *)
+Definition table_terminated : bytes := [76; 77; 84; 0; 69; 83; 84; 0; 69; 68; 84; 0].   (* LMT\0EST\0EDT\0 *)
+Definition table_unterminated : bytes := [76; 77; 84; 0; 69; 83; 84; 0; 69; 68; 84].    (* LMT\0EST\0EDT *)
+(* version 1, one type: utoff = i32::MIN, isdst 0, designation index 3 (a NUL: empty designation) *)
+Definition file_min_offset_v1 : bytes :=
+  tzif_header_full 0 0 0 0 0 1 12 ++ be32 (-2147483648) ++ [0; 3] ++ table_terminated.
+(* the same record in the 64-bit block of a version 2 file *)
+Definition file_min_offset_v2 : bytes :=
+  tzif_block_full 50 4 slim_zone [] [] ++ tzif_header_full 50 0 0 0 0 1 12 ++ be32 (-2147483648) ++ [0; 3]
+  ++ table_terminated ++ [10; 10].
+(* the neighbour i32::MIN + 1 is accepted *)
+Definition file_min_plus_one_v1 : bytes :=
+  tzif_header_full 0 0 0 0 0 1 12 ++ be32 (-2147483647) ++ [0; 3] ++ table_terminated.
+(* version 1, one type: utoff -18000, designation index 8 = "EDT" with no NUL after it inside the table *)
+Definition file_unterminated_v1 : bytes :=
+  tzif_header_full 0 0 0 0 0 1 11 ++ be32 (-18000) ++ [0; 8] ++ table_unterminated.
+Definition file_unterminated_v2 : bytes :=
+  tzif_block_full 50 4 slim_zone [] [] ++ tzif_header_full 50 0 0 0 0 1 11 ++ be32 (-18000) ++ [0; 8]
+  ++ table_unterminated ++ [10; 10].
+Definition file_berlin_v2 : bytes :=
+  write_tzif_v23_full 50 slim_zone [] [] example_berlin example_berlin_std example_berlin_ut.
+
+Lemma data_ok_b (d : bytes) : (zlen d <? i64_max) && forallb (fun b => (0 <=? b) && (b <? 256)) d = true -> data_ok d.
+Proof. intros H. apply andb_prop in H. destruct H as [H1 H2]. split; [lia|apply byte_forallb; exact H2]. Qed.
+
+Lemma accept_examples :
+  (data_ok example_v1_file /\ tzif_v1_accepts example_v1_file = true /\ tzif_accepts example_v1_file = true /\
+   parse example_v1_file = Val (Ok (tzif_zone example_v1_file))) /\
+  (data_ok file_berlin_v2 /\ tzif_v23_accepts file_berlin_v2 = true /\ tzif_accepts file_berlin_v2 = true /\
+   parse file_berlin_v2 = Val (Ok (tzif_zone file_berlin_v2)) /\ tzif_zone file_berlin_v2 = example_berlin) /\
+  (data_ok file_min_plus_one_v1 /\ tzif_accepts file_min_plus_one_v1 = true /\
+   tzif_zone file_min_plus_one_v1 = mk_tz [] [mk_ltt (-2147483647) false None] [] None).
+Proof.
+  repeat split; try (apply data_ok_b; vm_compute; reflexivity); vm_compute; reflexivity.
+Qed.
+Lemma reject_examples :
+  (data_ok file_min_offset_v1 /\ selected file_min_offset_v1 (state_at file_min_offset_v1 0 4) /\
+   tzif_accepts file_min_offset_v1 = false /\ parse file_min_offset_v1 = Val (Err ELocalTimeType)) /\
+  (data_ok file_min_offset_v2 /\ selected file_min_offset_v2 (state_at file_min_offset_v2 (off2 file_min_offset_v2) 8) /\
+   tzif_accepts file_min_offset_v2 = false /\ parse file_min_offset_v2 = Val (Err ELocalTimeType)) /\
+  (data_ok file_unterminated_v1 /\ selected file_unterminated_v1 (state_at file_unterminated_v1 0 4) /\
+   tzif_accepts file_unterminated_v1 = false /\ parse file_unterminated_v1 = Val (Err EInvalidTzFile)) /\
+  (data_ok file_unterminated_v2 /\ selected file_unterminated_v2 (state_at file_unterminated_v2 (off2 file_unterminated_v2) 8) /\
+   tzif_accepts file_unterminated_v2 = false /\ parse file_unterminated_v2 = Val (Err EInvalidTzFile)).
+Proof.
+  repeat split; try (apply data_ok_b; vm_compute; reflexivity);
+    try (left; split; [vm_compute; reflexivity|reflexivity]);
+    try (right; split; [vm_compute; reflexivity|reflexivity]);
+    vm_compute; reflexivity.
+Qed.
